@@ -4051,3 +4051,70 @@ LS_SPACE_SIZES = [
     for kind, ty in [("screen", "pyscreen"), ("view", "view")]
     for f, attr, mt in [("sample_space_size", "sample_mapping", "nmapping"), ("treatment_space_size", "treatment_mapping", "tmapping")]]
 ALL += LS_SCREEN_GETTERS + LS_SPACE_SIZES
+# ---- the small functions (wave 6): the __init__ methods that only store their arguments (generated file Generated/SrcInits.v; proofs
+# one file per class, Proofs/C??Source_Init_<Class>.v).  `self.<attr>` is a variable (attr_vars); the value of the translation is the
+# tuple of the attributes when the method ends, in the order of the model parameters the links of the class's methods take - so
+# "the k the policy filters with is the k it was constructed with" is a theorem about the source.  Nothing is trusted but the
+# translator (no primitive), except the one ignored statement of GaussianDBALScorer (see there).
+def _ls_init(file, cls, name, args, attrs, **more):
+    """args: [(python parameter, type)]; attrs: the attribute names, in the order of the returned tuple"""
+    types = dict(args)
+    ret = [a if isinstance(a, tuple) else (a, types[a]) for a in attrs]      # (attribute, type)
+    return dict(dict(file=file, cls=cls, func="__init__", out="SrcInits.v", imports="Model.Encode", name=name,
+                     pyparams=["self"] + [a for a, _ in args], params=list(args),
+                     attr_vars={"self." + a: "self_" + a for a, _ in ret}, vars={"self_" + a: t for a, t in ret},
+                     returns=ret[0][1] if len(ret) == 1 else "(" + " * ".join(t for _, t in ret) + ")",
+                     implicit_return="{self_%s}" % ret[0][0] if len(ret) == 1 else "(" + ", ".join("{self_%s}" % a for a, _ in ret) + ")"),
+                **more)
+
+
+_RETRO_PY = "src/batchie/retrospective.py"
+LS_INIT_SPARSE_COVER = _ls_init(_RETRO_PY, "SparseCoverPlateGenerator", "src_sparse_cover_init",
+                                [("reveal_single_treatment_experiments", "bool")], ["reveal_single_treatment_experiments"])
+LS_INIT_PAIRWISE = _ls_init(_RETRO_PY, "PairwisePlateGenerator", "src_pairwise_init", [("subset_size", "Z"), ("anchor_size", "Z")],
+                            ["subset_size", "anchor_size"])
+LS_INIT_PLATE_PERMUTATION = _ls_init(_RETRO_PY, "PlatePermutationPlateGenerator", "src_plate_permutation_init",
+                                     [("force_include_plate_names", "opt list name")], ["force_include_plate_names"], pydefaults=["None"])
+LS_INIT_SAMPLE_SEG = _ls_init(_RETRO_PY, "SampleSegregatingPermutationPlateGenerator", "src_sample_seg_init", [("max_plate_size", "Z")],
+                              ["max_plate_size"])
+LS_INIT_MERGE_MIN = _ls_init(_RETRO_PY, "MergeMinPlateSmoother", "src_merge_min_init", [("min_size", "Z")], ["min_size"])
+LS_INIT_MERGE_TB = _ls_init(_RETRO_PY, "MergeTopBottomPlateSmoother", "src_merge_tb_init", [("n_iterations", "Z")], ["n_iterations"])
+LS_INIT_FIXED_SIZE = _ls_init(_RETRO_PY, "FixedSizeSmoother", "src_fixed_size_init", [("plate_size", "Z")], ["plate_size"])
+LS_INIT_NPLATE = _ls_init(_RETRO_PY, "NPlatePerCellLineSmoother", "src_nplate_init", [("min_n_cell_line_plates", "Z")],
+                          ["min_n_cell_line_plates"])
+LS_INIT_ENSEMBLE = _ls_init(_RETRO_PY, "BatchieEnsemblePlateSmoother", "src_ensemble_init",
+                            [("min_size", "Z"), ("n_iterations", "Z"), ("min_n_cell_line_plates", "Z")],
+                            ["min_size", "n_iterations", "min_n_cell_line_plates"])
+LS_INIT_POLICY = _ls_init("src/batchie/policies/k_per_sample.py", "KPerSamplePlatePolicy", "src_k_per_sample_init", [("k", "Z")], ["k"])
+LS_INIT_MSE = _ls_init("src/batchie/distance/mse.py", "MSEDistance", "src_mse_distance_init", [("sigmoid", "bool")], ["sigmoid"],
+                       pydefaults=["True"])
+# GaussianDBALScorer.__init__(self, max_chunk=50, max_triples=5000, **kwargs): `super().__init__(**kwargs)` is IGNORED - trusted: the
+# base class Scorer defines no __init__ (object.__init__ stores nothing; its TypeError for a non-empty kwargs is not modelled)
+LS_INIT_DBAL = _ls_init("src/batchie/scoring/gaussian_dbal.py", "GaussianDBALScorer", "src_dbal_scorer_init",
+                        [("max_chunk", "Z"), ("max_triples", "Z")], ["max_chunk", "max_triples"], pydefaults=["50", "5000"],
+                        ignore=["super().__init__(**kwargs)"])
+# BayesianModel.__init__ / Metric.__init__ (core.py): the stored object is opaque
+LS_INIT_BAYESIAN = _ls_init("src/batchie/core.py", "BayesianModel", "src_bayesian_model_init", [("experiment_space", "Sp")],
+                            ["experiment_space"])
+LS_INIT_BAYESIAN["params"] = [("Sp", "Type")] + LS_INIT_BAYESIAN["params"]
+LS_INIT_METRIC = _ls_init("src/batchie/core.py", "Metric", "src_metric_init", [("model", "Mo")], ["model"])
+LS_INIT_METRIC["params"] = [("Mo", "Type")] + LS_INIT_METRIC["params"]
+LS_INITS = [LS_INIT_SPARSE_COVER, LS_INIT_PAIRWISE, LS_INIT_PLATE_PERMUTATION, LS_INIT_SAMPLE_SEG, LS_INIT_MERGE_MIN, LS_INIT_MERGE_TB,
+            LS_INIT_FIXED_SIZE, LS_INIT_NPLATE, LS_INIT_ENSEMBLE, LS_INIT_POLICY, LS_INIT_MSE, LS_INIT_DBAL, LS_INIT_BAYESIAN, LS_INIT_METRIC]
+ALL += LS_INITS
+# ---- the small functions (wave 6): ThetaHolder.__iter__ and Metric.evaluate_all (core.py; vocabulary: Model/Thetas.v; generated file
+# Generated/SrcCoreSmall.v; proofs Proofs/C10Source_Iter.v, C10Source_EvaluateAll.v).  A holder object is `pyobj` as in the C10 block.
+# __iter__ is a generator: it denotes the list it yields.  evaluate_all: iterating the holder runs the translated __iter__; the
+# abstract method self.evaluate is ANY function `ev` of a sample that may raise; np.array(list) = the same values.
+LS_HOLDER_ITER = dict(
+    _C10, out="SrcCoreSmall.v", func="__iter__", name="src_holder_iter", pyparams=["self"],
+    params=[("P", "Type"), ("S", "Type"), ("self", _OBJ)], returns="list " + _THETA, generator=_THETA, vars={"theta": _THETA})
+LS_METRIC_EVALUATE_ALL = dict(
+    file="src/batchie/core.py", cls="Metric", func="evaluate_all", out="SrcCoreSmall.v", imports="Model.Thetas", name="src_metric_evaluate_all",
+    pyparams=["self", "results_holder"],
+    params=[("P", "Type"), ("S", "Type"), ("V", "Type"), ("ev", "theta P S -> result V"), ("results_holder", _OBJ)],
+    returns="list V", vars={"x": _THETA},
+    prims=[("results_holder", "!src_holder_iter P S results_holder'", "list " + _THETA),       # `for x in holder` = holder.__iter__()
+           ("self.evaluate(__x)", "!ev {x}", "V", {"x": _THETA}),
+           ("np.array(__l)", "{l}", "list V", {"l": "list V"})])
+ALL += [LS_HOLDER_ITER, LS_METRIC_EVALUATE_ALL]
